@@ -3,6 +3,7 @@ package multiraft_test
 import (
 	"context"
 	"encoding/json"
+	"errors"
 	"flag"
 	"fmt"
 	"math/rand"
@@ -194,6 +195,7 @@ type verifC12Outcome struct {
 	pendingInfo  []string
 	nudges       int
 	confChanges  int
+	staleSnaps   int
 	elapsed      time.Duration
 }
 
@@ -223,6 +225,15 @@ func verifC12Run(cfg verifC12Config, settleLimit time.Duration) (out verifC12Out
 		wg.Wait()
 		out.netSent, out.netDropped, out.netDuped = c.net.sent.Load(), c.net.dropped.Load(), c.net.duped.Load()
 		out.netBlocked, out.netSnaps = c.net.blockedDrops.Load(), c.net.snaps.Load()
+		for _, n := range c.nodes {
+			for _, m := range n.mem {
+				if ms, ok := m.(*verifC12MemStore); ok {
+					ms.mu.Lock()
+					out.staleSnaps += ms.c12Stale
+					ms.mu.Unlock()
+				}
+			}
+		}
 		out.elapsed = time.Since(started)
 	}
 
@@ -370,7 +381,7 @@ func verifC12Run(cfg verifC12Config, settleLimit time.Duration) (out verifC12Out
 			time.Sleep(time.Duration(st.DownMS) * time.Millisecond)
 			for _, a := range st.Nodes {
 				if err := c.nodes[a-1].start(); err != nil {
-					out.machinery = err.Error()
+					c.startFailed(a, err, &out)
 				}
 			}
 		case "transfer":
@@ -548,7 +559,18 @@ func (c *verifC12Cluster) nudge(slot int, out *verifC12Outcome) {
 	if err := n.stop(); err != nil && out.machinery == "" {
 		out.machinery = "close: " + err.Error()
 	}
-	if err := n.start(); err != nil && out.machinery == "" {
+	if err := n.start(); err != nil {
+		c.startFailed(n.id, err, out)
+	}
+}
+
+// startFailed: a node that cannot restart from its own storage is a finding
+// (recorded for the oracle); any other start problem is machinery.
+func (c *verifC12Cluster) startFailed(node int, err error, out *verifC12Outcome) {
+	if errors.Is(err, verifC12ErrRestart) {
+		c.hist.add(verifC12Event{Kind: "restartfailed", Node: node, Err: err.Error()})
+	}
+	if out.machinery == "" {
 		out.machinery = err.Error()
 	}
 }
@@ -589,7 +611,11 @@ func TestVerifC12Replicas(t *testing.T) {
 		if err := json.Unmarshal(b, &h); err != nil {
 			t.Fatalf("VERIF-MACHINERY: decode replay %s: %v", p, err)
 		}
-		if f := verifC12Check(&h); len(f.Violations) > 0 {
+		f := verifC12Check(&h)
+		if len(f.KnownClass) > 0 && !kit.KnownFinding("C12", verifC12SigForwarded) {
+			f.Violations = append(f.Violations, f.KnownClass...)
+		}
+		if len(f.Violations) > 0 {
 			t.Fatalf("C12 violated in recorded history %s:\n  %s", p, strings.Join(f.Violations, "\n  "))
 		}
 		t.Logf("recorded history %s satisfies the oracle", p)
@@ -617,6 +643,7 @@ func TestVerifC12Replicas(t *testing.T) {
 		go func() {
 			defer wg.Done()
 			for j := range jobs {
+				fmt.Printf("C12 run %d start: %s\n", j.i, verifC12Describe(j.cfg))
 				out := verifC12Run(j.cfg, settleLimit)
 				facts := verifC12Check(out.hist)
 				mu.Lock()
@@ -679,6 +706,7 @@ func TestVerifC12Replicas(t *testing.T) {
 				k.LabelIf(out.transferred > 0, "leader transfer requested")
 				k.LabelIf(out.manualCompax > 0, "manual CompactLog compacted")
 				k.LabelIf(out.confChanges > 0, "membership change (learner) proposed")
+				k.LabelIf(out.staleSnaps > 0, "memory store refused a compaction snapshot older than the installed one")
 				k.LabelIf(out.netDropped > 0, "messages dropped")
 				k.LabelIf(out.netDuped > 0, "messages duplicated")
 				k.LabelIf(out.netBlocked > 0, "messages cut by partition")
